@@ -11,6 +11,7 @@ import (
 	"github.com/lyraproj/issue/issue"
 	"github.com/lyraproj/pcore/px"
 	"github.com/lyraproj/pcore/utils"
+	"github.com/lyraproj/pcore/verifhook"
 )
 
 type (
@@ -92,8 +93,10 @@ func (l *fileBasedLoader) LoadEntry(c px.Context, name px.TypedName) px.LoaderEn
 		return entry
 	}
 
+	verifhook.Point("filebased.before-find")
 	entry = l.find(c, name)
 	if entry == nil {
+		verifhook.Point("filebased.before-set")
 		entry = &loaderEntry{nil, nil}
 		l.SetEntry(name, entry)
 	}
@@ -255,17 +258,22 @@ func (l *fileBasedLoader) instantiate(c px.Context, smartPath SmartPath, name px
 	}
 	l.locksLock.Unlock()
 
+	verifhook.PointLock("instantiate.before-lock", nameLock)
 	nameLock.Lock()
+	verifhook.Point("instantiate.locked")
 	defer func() {
 		nameLock.Unlock()
+		verifhook.Point("instantiate.unlocked")
 		l.locksLock.Lock()
 		delete(l.locks, name.MapKey())
 		l.locksLock.Unlock()
 	}()
 
 	if l.GetEntry(name) == nil {
+		verifhook.Point("instantiate.checked")
 		// Make absolutely sure that we don't recurse into instantiate again
 		l.SetEntry(name, px.NewLoaderEntry(nil, nil))
+		verifhook.Point("instantiate.marked")
 		// Names are resolved by the loader of the calling context but what the file defines belongs to this loader
 		c.DoWithLoader(&instantiationLoader{c.Loader(), l}, func() { smartPath.Instantiator()(c, l, name, origins) })
 	}
